@@ -3454,20 +3454,26 @@ func (v *binaryExprVisitor) checkAndPrepare(p *printer) bool {
 		}
 
 	case js_ast.BinOpPow:
+		// An inlined enum value is printed as the value itself
+		leftData := e.Left.Data
+		if inlined, ok := leftData.(*js_ast.EInlinedEnum); ok {
+			leftData = inlined.Value.Data
+		}
+
 		// "**" can't contain certain unary expressions
-		if left, ok := e.Left.Data.(*js_ast.EUnary); ok && left.Op.UnaryAssignTarget() == js_ast.AssignTargetNone {
+		if left, ok := leftData.(*js_ast.EUnary); ok && left.Op.UnaryAssignTarget() == js_ast.AssignTargetNone {
 			v.leftLevel = js_ast.LCall
-		} else if _, ok := e.Left.Data.(*js_ast.EAwait); ok {
+		} else if _, ok := leftData.(*js_ast.EAwait); ok {
 			v.leftLevel = js_ast.LCall
-		} else if _, ok := e.Left.Data.(*js_ast.EUndefined); ok {
+		} else if _, ok := leftData.(*js_ast.EUndefined); ok {
 			// Undefined is printed as "void 0"
 			v.leftLevel = js_ast.LCall
-		} else if _, ok := e.Left.Data.(*js_ast.ENumber); ok {
+		} else if _, ok := leftData.(*js_ast.ENumber); ok {
 			// Negative numbers are printed using a unary operator
 			v.leftLevel = js_ast.LCall
 		} else if p.options.MinifySyntax {
 			// When minifying, booleans are printed as "!0 and "!1"
-			if _, ok := e.Left.Data.(*js_ast.EBoolean); ok {
+			if _, ok := leftData.(*js_ast.EBoolean); ok {
 				v.leftLevel = js_ast.LCall
 			}
 		}
